@@ -1,0 +1,24 @@
+//go:build verif
+
+package binary
+
+// Contracts for the gvc verifier (/verif). Comment-only; never compiled into
+// a normal build.
+
+// WriteVariableWidthInt: the bytes written decode, with git's OFS_DELTA offset
+// decoder, to n; every byte but the last carries the continuation flag.
+// Stated range: n >= 0.
+//gvc:func WriteVariableWidthInt
+//gvc:  props C07
+//gvc:  theory bv
+//gvc:  opt nomerge
+//gvc:  results err
+//gvc:  modifies w.#wlen, w.#wdata
+//gvc:  requires nonneg: n >= 0
+//gvc:  requires wnn: w != nil
+//gvc:  loop 1 unroll 10
+//gvc:  ensures length: 1 <= len(now(buf)) && len(now(buf)) <= 10
+//gvc:  ensures value: spec_ofs_value(arr(now(buf)), off(now(buf)), len(now(buf))) == n
+//gvc:  ensures last: now(buf)[len(now(buf)) - 1] & 0x80 == 0
+//gvc:  ensures conts: forall(k, 0, 9, k + 1 < len(now(buf)) ==> now(buf)[k] & 0x80 != 0)
+//gvc:end
